@@ -12,6 +12,7 @@ package main
 import (
 	"context"
 	"fmt"
+	"github.com/scottyw/tetromino/gameboy/controller"
 	"os"
 	"runtime"
 	"sync"
@@ -31,11 +32,39 @@ type inst struct {
 	steps int
 	alive bool
 	trace []uint64
+	opt   instOpt
+}
+
+// instOpt is what belongs to one instance alone: its configuration and its own input schedule
+// (key events keyed by the instance's own machine-cycle count, delivered the way the display's
+// key handler delivers them: controller first, then the CPU's OnInput).
+type instOpt struct {
+	debugLCD bool
+	keys     map[int]keyEv
+}
+
+type keyEv struct {
+	button  controller.Button
+	pressed bool
+}
+
+var optFor = map[string]instOpt{} // by ROM path
+var optMu sync.Mutex
+
+func keySchedule(r *rig.Rng, cycles int) map[int]keyEv {
+	m := map[int]keyEv{}
+	for n := 4 + r.Intn(40); n > 0; n-- {
+		m[r.Intn(cycles)] = keyEv{controller.Button(r.Intn(8)), r.Chance(2, 3)}
+	}
+	return m
 }
 
 func newInst(path string) *inst {
-	gb := gameboy.New(gameboy.Config{RomFilename: path, DisableVideoOutput: true, DisableAudioOutput: true})
-	return &inst{gb: gb, path: path, alive: true}
+	optMu.Lock()
+	o := optFor[path]
+	optMu.Unlock()
+	gb := gameboy.New(gameboy.Config{RomFilename: path, DisableVideoOutput: true, DisableAudioOutput: true, DebugLCD: o.debugLCD})
+	return &inst{gb: gb, path: path, alive: true, opt: o}
 }
 
 // step advances one machine cycle (guarded against the deliberate stop) and extends the trace.
@@ -46,6 +75,12 @@ func (x *inst) step() {
 	if !emu.Safe(x.gb) {
 		x.alive = false
 		return
+	}
+	if ev, ok := x.opt.keys[x.steps]; ok {
+		x.gb.XController().ButtonAction(ev.button, ev.pressed)
+		if ev.pressed {
+			x.gb.XCPU().OnInput()
+		}
 	}
 	emu.Step(x.gb)
 	x.steps++
@@ -94,9 +129,13 @@ func equal(a, b []uint64) (bool, int) {
 }
 
 func run(c *rig.Ctx) {
-	c.Require("interleaved_cases", "concurrent_cases", "instances_compared", "orders_tried")
+	c.Require("interleaved_cases", "concurrent_cases", "instances_compared", "orders_tried", "instances_with_key_events", "instances_using_stop", "instances_with_debug_lcd")
 	gen := func(r *rig.Rng, k int64) *prog.Program {
-		switch k % 4 {
+		switch k % 6 {
+		case 5:
+			return prog.Sprites(r) // objects and window on screen
+		case 4:
+			return prog.StopLoop(r)
 		case 0:
 			return prog.Generate(r, prog.Options{Interrupts: true, Hardware: true, AllOpcodes: true, CartType: -1})
 		case 1:
@@ -109,8 +148,23 @@ func run(c *rig.Ctx) {
 	prepare := func(r *rig.Rng, i int64, n int) (paths []string, descr []string) {
 		for k := 0; k < n; k++ {
 			p := gen(r, i+int64(k))
-			paths = append(paths, emu.TempROM(p.ROM, "c25"))
-			descr = append(descr, p.Describe())
+			path := emu.TempROM(p.ROM, "c25")
+			paths = append(paths, path)
+			o := instOpt{debugLCD: (i+int64(k))%3 == 1}
+			if p.Seed == "stop-loop" || r.Chance(1, 2) {
+				o.keys = keySchedule(r, 6*17556)
+				c.Count("instances_with_key_events", 1)
+			}
+			if p.Seed == "stop-loop" {
+				c.Count("instances_using_stop", 1)
+			}
+			if o.debugLCD {
+				c.Count("instances_with_debug_lcd", 1)
+			}
+			optMu.Lock()
+			optFor[path] = o
+			optMu.Unlock()
+			descr = append(descr, fmt.Sprintf("%s debugLCD=%v keys=%d", p.Describe(), o.debugLCD, len(o.keys)))
 		}
 		return
 	}
